@@ -28,10 +28,17 @@ MUTANTS = [
     ("C18", "api/attributes/__init__.py", "self.max_length is not None and len(self._dict) == self.max_length", "self.max_length is not None and len(self._dict) + 1 == self.max_length"),
     ("C18", "api/attributes/__init__.py", "                if key in self._dict:\n                    del self._dict[key]\n                elif (", "                if ("),
     ("C18", "api/attributes/__init__.py", "self._dict.popitem(last=False)", "self._dict.popitem(last=True)"),
+    ("C12", "config/tracepoint_config.py", "            new_config = self._tracepoint_config\n", ""),
+    ("C12", "config/tracepoint_config.py", "        self._current_hash = new_hash\n", "        self._current_hash = old_hash\n"),
+    ("C12", "config/tracepoint_config.py", "new_config + self._custom)", "self._custom + new_config)"),
+    ("C12", "processor/trigger_handler.py", "        self._tp_config = new_config\n", "        self._tp_config = list(self._tp_config) + new_config\n"),
+    ("C13", "config/tracepoint_config.py", "        self._custom_ids.append(tp_id)\n        self.__trigger_update(None, None)\n        return tp_id", "        self._custom_ids.insert(0, tp_id)\n        self.__trigger_update(None, None)\n        return tp_id"),
+    ("C13", "config/tracepoint_config.py", "                del self._custom[idx]\n", "                del self._custom[0]\n"),
+    ("C13", "config/tracepoint_config.py", "                self.__trigger_update(None, None)\n                return", "                return"),
 ]
 if len(sys.argv) > 1:
     MUTANTS = [m for m in MUTANTS if m[0] in sys.argv[1:]]
-ALL = ["C02", "C03", "C04", "C05", "C10", "C11", "C18", "C19"]
+ALL = ["C02", "C03", "C04", "C05", "C10", "C11", "C12", "C13", "C18", "C19"]
 
 
 def verdicts():
